@@ -481,11 +481,25 @@ def burst(draw):
 
 
 @st.composite
+def dim_burst(draw, meas):
+  """One valid coordinate assigned to every dimensioned measurement of the phase, in declaration order (what a sweep phase
+  does): end-of-phase validation then has several measurements to go through."""
+  out = []
+  for i, d in enumerate(meas):
+    if d['dims']:
+      c = draw(st.integers(0, 2)) if d['dims'] == 1 else (draw(st.integers(0, 2)), draw(st.integers(0, 1)))
+      out.append(['setc', i, enc(c), enc(draw(st.sampled_from([5, 11, 0.5, 9.5, 95, 'abc'])))])
+  return out
+
+
+@st.composite
 def cases(draw):
   n = draw(st.integers(1, 25))
-  chunks = draw(st.lists(st.one_of(ops().map(lambda o: [o]), ops().map(lambda o: [o]), burst()), min_size=1, max_size=n))
+  meas = draw(st.lists(decl(), min_size=1, max_size=3))
+  chunk = st.one_of(ops().map(lambda o: [o]), ops().map(lambda o: [o]), ops().map(lambda o: [o]), burst(), dim_burst(meas))
+  chunks = draw(st.lists(chunk, min_size=1, max_size=n))
   flat = [o for c in chunks for o in c][:25]
-  return {'meas': draw(st.lists(decl(), min_size=1, max_size=3)),
+  return {'meas': meas,
           'diag': sorted(draw(st.sets(st.integers(0, 3), max_size=3))),
           'internal': sorted(draw(st.sets(st.integers(0, 3), max_size=2))),
           'ops': flat,
